@@ -66,6 +66,8 @@ RULES = {
              "agreement of 3a with 3aSha outside the seeding block is recorded as information only",
     "BAND": "the band (unit interval) counter visits band 1 first and advances by one in ProbMinHash3 (i from 1, band i) and in "
             "3a/3aSha (pass counter from 2, band i-1) alike, and 3a's keep filters test the lower end of the next band",
+    "COMPACT": "the deferral buffer of 3a/3aSha is compacted in place: kept items are written at a position that starts at 0 in every "
+               "pass and advances with each kept item, and the buffer is truncated to that position after the pass",
     "RESETBEFORE": "in ProbMinHash2::hash_item permut_generator.reset() dominates every permut_generator.next()",
     "TRACKERSHAPE": "MaxValueTracker::get_max_value returns values[last_index]; is_update_possible(v) returns v < "
                     "values[last_index]; get_value(k) returns values[k]",
@@ -348,6 +350,44 @@ def _types_erased(s):
     return re.sub(r"key", "key", s)
 
 
+def _compact_rule(ctx, facts, fid):
+    """COMPACT: the second pass of 3a/3aSha compacts the deferral buffer in place: every kept item is written at
+    to_be_processed[pos] with pos += 1 in the same block, pos starts at 0 in every pass, and the buffer is truncated to pos
+    after the pass (items must neither be lost nor be processed twice)"""
+    fn = facts.fn(fid)
+    t = tree_of(fn)
+    keeps = [n for n in user_nodes(fn) if n["k"] == "Assign" and slicer.base_place(n["l"])[:2] == ("self", "to_be_processed")]
+    truncs = self_method_calls(fn, "to_be_processed", ["truncate"])
+    if not keeps and not truncs:
+        return
+    where = hirq.loc(fn)
+    if len(keeps) != 1 or len(truncs) != 1:
+        ctx.violation("COMPACT", fid, "buffer compaction", where, "expected one keep-assignment and one truncate of to_be_processed in the second pass; found %d / %d" % (len(keeps), len(truncs)))
+        return
+    kp, tr = keeps[0], truncs[0]
+    l = nf.strip(kp["l"])
+    pos = nf.nf(l["idx"], True) if l["k"] == "Index" else None
+    from ..rulelib import def_exprs
+    blk = t.parent.get(id(kp))
+    incs = [n for n in user_nodes(fn) if n["k"] == "AssignOp" and nf.nf(n["l"]) == pos and n["op"] == "+=" and nf.nf(n["r"]) == "1"]
+    ok_inc = len(incs) == 1 and t.parent.get(id(incs[0])) is blk and hir_dominates(t, kp, incs[0])
+    defs = [nf.nf(d) for d in def_exprs(fn, pos)] if pos and re.match(r"^\w+$", pos) else []
+    ok_init = defs[:1] == ["0"] and len(defs) == 2
+    # the init is inside the pass loop, the truncate after the inner for loop, both in the pass body
+    loops_k = t.enclosing_loops(kp)
+    ok_tr = nf.nf(tr["args"][0], True) == pos and len(loops_k) == 2 and t.contains(loops_k[1], tr) and not t.contains(loops_k[0], tr) and \
+        tr["sp"][1] > kp["sp"][1] and not nf.all_conditions(t, tr, stop=loops_k[1])[1:]
+    lets = [n for n in user_nodes(fn) if n["k"] == "Let" and n["pat"]["k"] == "Bind" and n["pat"]["name"] == pos]
+    ok_scope = len(lets) == 1 and len(loops_k) == 2 and t.contains(loops_k[1], lets[0]) and not t.contains(loops_k[0], lets[0])
+    # the kept tuple is the item's own (key, inverse weight, generator state)
+    if ok_inc and ok_init and ok_tr and ok_scope:
+        ctx.ok("COMPACT", fid, "to_be_processed[%s] = kept item; %s += 1; truncate(%s) after the pass; %s = 0 per pass" % (pos, pos, pos, pos), hirq.loc(kp))
+    else:
+        ctx.violation("COMPACT", fid, "buffer compaction", hirq.loc(kp),
+                      "in-place compaction of the deferral buffer is broken (position advanced with each kept item: %s; position starts at 0 in each pass: %s; truncate(position) after the pass: %s): deferred items would be lost or processed twice"
+                      % (ok_inc, ok_init and ok_scope, ok_tr))
+
+
 def _affine(e, var):
     """(a, b) with e == a*var + b for integer-affine expressions of the local `var`, else None"""
     e = nf.strip_casts(e)
@@ -523,6 +563,7 @@ def run(ctx, facts):
             ctx.violation("TRACKERSHAPE", MT + name, "accessor shape", hirq.loc(f), "expected %s, found %s" % (want, got[:100]))
     for fid in PROTO_FNS:
         _band_rule(ctx, facts, fid)
+        _compact_rule(ctx, facts, fid)
     # 5 DELEG, CLONE
     for (fid, item) in DELEG_FNS:
         _deleg(ctx, facts, fid, item)
